@@ -532,8 +532,11 @@ pub fn run_property(parts: &[&PartDesc], tier: Tier, seed: u64, jobs: u32, only_
                 Err(e) => harness_failures.push(format!("spawn {}: {e}", bin.display())),
             }
         }
-        for (shard, c) in children {
-            let out = c.wait_with_output().expect("wait child");
+        // drain every child concurrently: a child that fills its stderr pipe while the parent waits
+        // for an earlier shard would stall (and trip its own watchdog)
+        let waiters: Vec<(u32, std::thread::JoinHandle<std::io::Result<std::process::Output>>)> = children.into_iter().map(|(shard, c)| (shard, std::thread::spawn(move || c.wait_with_output()))).collect();
+        for (shard, w) in waiters {
+            let out = w.join().expect("waiter thread").expect("wait child");
             let stdout = String::from_utf8_lossy(&out.stdout);
             let line = stdout.lines().rev().find(|l| l.starts_with("SHARD-RESULT ")).map(|l| l["SHARD-RESULT ".len()..].to_string());
             match line.and_then(|l| serde_json::from_str::<ShardResult>(&l).ok()) {
